@@ -355,6 +355,47 @@ func CheckC09(e *Env) int {
 		b.P.Note = "distinct-params"
 		cases = append(cases, &RejectCase{P: b.P, Control: true, Cell: fmt.Sprintf("legal:distinct-params/arity=%d", arity)})
 	}
+	// the rules hold for providers ANYWHERE in the closure of the build's sets, also for one that
+	// no injector needs and that sits in a nested set next to needed ones
+	for _, what := range []string{"dup-param", "dup-param-3", "signature-two-values", "signature-no-results"} {
+		for _, depth := range []int{1, 2} {
+			n++
+			b := NewPB(fmt.Sprintf("sg%04d", n), "app")
+			cfg, pt, other := b.Carrier(0, "Config"), b.Carrier(0, "Point"), b.Carrier(0, "Other")
+			nc := b.Func(0, "NewConfig", cfg, false, false)
+			nc.Stub = true
+			no := b.Func(0, "NewOther", other, false, false)
+			no.Stub = true
+			var bad *Item
+			class := "dup-param"
+			must := []string{DiagName(b.P, other)}
+			switch what {
+			case "dup-param":
+				bad = b.Func(0, "NewPoint", pt, false, false, other, other)
+			case "dup-param-3":
+				bad = b.Func(0, "NewPoint", pt, false, false, other, cfg, other)
+			case "signature-two-values":
+				bad = b.Func(0, "NewPoint", pt, false, false, other)
+				bad.RawResults = []string{"%D" + fmt.Sprint(pt.Decl.ID) + "%", "%D" + fmt.Sprint(cfg.Decl.ID) + "%"}
+				class, must = "signature", nil
+			case "signature-no-results":
+				bad = b.Func(0, "NewPoint", pt, false, false, other)
+				bad.RawResults = []string{}
+				class, must = "signature", nil
+			}
+			bad.Stub = true
+			inner := b.Set(0, "Geometry", ItemRef(bad.ID), ItemRef(no.ID))
+			top := inner
+			if depth == 2 {
+				top = b.Set(0, "Shapes", SetRef(inner.ID))
+			}
+			all := b.Set(0, "All", ItemRef(nc.ID), SetRef(top.ID))
+			b.Inj("Init", cfg, false, false, nil, SetRef(all.ID))
+			cell := fmt.Sprintf("unneeded-provider-in-used-nested-set/%s/depth=%d", what, depth)
+			b.P.Note = cell
+			cases = append(cases, &RejectCase{P: b.P, Class: class, MustName: must, Cell: cell})
+		}
+	}
 	// one type under two spellings is one type: parameters (and selected struct fields) written
 	// rune / int32, byte / uint8, any / interface{} duplicate each other
 	{
